@@ -183,9 +183,17 @@ def rule_bucket(ctx):
     network must have prefix length bits - d equal to that.'''
     f = ctx.func('peer', 'Peer.bucket_for_external_interface')
     n = 0
-    for c in q.own_calls(f):
-        if not (isinstance(c.func, ast.Attribute) and c.func.attr == 'supernet' and isinstance(c.func.value, ast.Call)):
-            continue
+    # per return path, locals expressed in the inputs: the class and the width may come from literals in place, from named
+    # constants or from a table row selected by the address version
+    from .. import paths as P
+    sites, seen = [], set()
+    for pth in P.returns(f.node):
+        for c in ast.walk(pth.value) if pth.value is not None else []:
+            if isinstance(c, ast.Call) and isinstance(c.func, ast.Attribute) and c.func.attr == 'supernet' and isinstance(c.func.value, ast.Call):
+                if norm(c) not in seen:
+                    seen.add(norm(c))
+                    sites.append(c)
+    for c in sites:
         cls = norm(c.func.value.func).split('.')[-1]
         if cls not in BUCKET_PREFIX:
             continue
@@ -204,11 +212,11 @@ def rule_bucket(ctx):
                     got = lin.get('', 0)
         except q.NotLinear:
             pass
-        ctx.check(got == want, 'C19.BUCKET', ctx.key(f, q.stmt(c), cls),
+        ctx.check(got == want, 'C19.BUCKET', ctx.key(f, None, cls),
                   f'{cls} hosts are bucketed by their /{want} network',
                   f'{cls} hosts are bucketed by their /{got} network, not /{want}: ' +
                   ('many more peers of one operator fit into the reply' if (got or 0) > want else 'unrelated networks share a bucket'),
-                  loc=ctx.loc(f, c))
+                  loc=ctx.loc(f, f.node))
     # each address family uses its own network class
     return n
 
